@@ -292,13 +292,12 @@ def check_zero(run, model, m, Fc, tier):
         run.count("zero_%s_%s" % (syn, "accept" if inner_ok else "leftover" if consumed is not None else "nodecode"))
         if syn != "ber" and d is not None and not inner_ok:
             # the selected type decodes from the container and does not use it up
+            # (OER: refused since C18-fix-9, `dr.consumed == container_len` in oer_open_type_get; finding C18-oer-open-type-leftover is fixed,
+            # no classifier: an accepted left-over is a violation in every syntax)
             if c_ok:
-                if syn == "oer" and consumed < len(c) and (der is None or o.startswith("OK %d %s " % (flen, zero_frame_der(i, der)))):
-                    run.known_finding("C18-oer-open-type-leftover", l)
-                else:
-                    run.violation("oracle:container_exhausted(%s)" % syn,
-                                  dict(rp, what="identifier %d selects %s, which takes %d %s of the %d-octet container %s: the left-over %s silently accepted" %
-                                       (i, tn, consumed, "bits" if syn == "uper" else "octets", len(c), p, "is" if syn == "oer" else "octets are")))
+                run.violation("oracle:container_exhausted(%s)" % syn,
+                              dict(rp, what="identifier %d selects %s, which takes %d %s of the %d-octet container %s: the left-over %s silently accepted" %
+                                   (i, tn, consumed, "bits" if syn == "uper" else "octets", len(c), p, "is" if syn == "oer" else "octets are")))
         elif not inner_ok:
             if c_ok:
                 run.violation("oracle:opentype_decodes_row(%s)" % syn, dict(rp, what="the container does not hold an encoding of the selected row's type %s, the frame was accepted" % tn))
